@@ -23,6 +23,7 @@ var (
 func checkC12(c *chk.Ctx) {
 	h := newH(c)
 	c.Decided = []string{
+		"R12h the WriteBatch implementation maps Put/Delete/DeleteRange onto the engine's Set/Delete/DeleteRange (a single-delete tombstone is only valid for keys written once and would resurrect overwritten records)",
 		"R12a puts are applied before deletes before range deletes",
 		"R12b one atomic indexed batch per request (shared with C07)",
 		"R12c every read made while applying goes through the request's batch, never the KV directly",
@@ -41,6 +42,7 @@ func checkC12(c *chk.Ctx) {
 	ruleR12e(h)
 	ruleR12f(h)
 	ruleR06dInto(h, "R12g", false)
+	ruleR12h(h)
 }
 
 // applyCallFor returns, in the function that builds the WriteResponse, the call whose
@@ -628,4 +630,40 @@ func appendedElem(app *ssa.Call) ssa.Value {
 		}
 	}
 	return elem
+}
+
+// ruleR12h: sibling table between the WriteBatch interface and the storage engine's batch.
+func ruleR12h(h *H) {
+	const rule = "R12h"
+	h.Rule(rule, "K7", "WriteBatch.Put -> Batch.Set, WriteBatch.Delete -> Batch.Delete, WriteBatch.DeleteRange -> Batch.DeleteRange; no SingleDelete anywhere in the repository", 3)
+	table := map[string]string{"Put": "Set", "Delete": "Delete", "DeleteRange": "DeleteRange"}
+	engineOps := func(fn *ssa.Function) []string {
+		var out []string
+		ir.Instrs(fn, func(in ssa.Instruction) {
+			if c := ir.CallOf(in); c != nil {
+				if f := c.StaticCallee(); f != nil && f.Signature.Recv() != nil && f.Pkg != nil && strings.HasPrefix(f.Pkg.Pkg.Path(), "github.com/cockroachdb/pebble") && namedName(f.Signature.Recv().Type()) == "Batch" {
+					out = append(out, f.Name())
+				}
+			}
+		})
+		return out
+	}
+	for _, m := range []string{"Put", "Delete", "DeleteRange"} {
+		for _, fn := range h.P.ImplMethods("server/kv", "WriteBatch", m) {
+			h.Fn(ir.FuncName(fn))
+			ops := engineOps(fn)
+			ok := len(ops) == 1 && ops[0] == table[m]
+			h.Verdict(ok, rule, "engine operation of WriteBatch."+m, h.P.Pos(fn.Pos()), "Batch."+table[m],
+				fmt.Sprintf("WriteBatch.%s is implemented with engine operation(s) %v instead of Batch.%s: for Delete, a SingleDelete tombstone only hides the newest version of a key, an overwritten record re-appears after the next flush / compaction", m, ops, table[m]))
+		}
+	}
+	for _, fn := range h.P.Funcs {
+		ir.Instrs(fn, func(in ssa.Instruction) {
+			if c := ir.CallOf(in); c != nil {
+				if f := c.StaticCallee(); f != nil && f.Name() == "SingleDelete" && f.Pkg != nil && strings.HasPrefix(f.Pkg.Pkg.Path(), "github.com/cockroachdb/pebble") {
+					h.Bad(rule, "SingleDelete in "+ir.FuncName(fn), h.pos(in), "the engine's SingleDelete is used, but records are overwritten in place (several versions of one key exist in the LSM): the tombstone removes only one of them")
+				}
+			}
+		})
+	}
 }
